@@ -69,6 +69,7 @@ def fill_depressions(
     delv = np.zeros_like(elevtn)
     elevtn_out = elevtn.copy()
     done = np.isnan(elevtn) if np.isnan(nodata) else elevtn == nodata
+    isnodata = done.copy()
     d8 = np.where(done, np.uint8(247), np.uint8(0))
     if connectivity not in [4, 8]:
         raise ValueError('"connectivity" should either be 4 or 8')
@@ -128,7 +129,8 @@ def fill_depressions(
                     for dr1, dc1 in zip(drs, dcs):  # (re)visit neighbors
                         r1, c1 = r + dr1, c + dc1
                         if r1 >= 0 and r1 < nrow and c1 >= 0 and c1 < ncol:
-                            done[r1, c1] = False
+                            if not isnodata[r1, c1]:  # nodata cells stay excluded
+                                done[r1, c1] = False
                     continue
                 elif delv[r, c] > 0:  # reset cell if previously filled & revisited
                     queued[r, c] = False
